@@ -29,6 +29,7 @@ import Hdl21Model.Lemmas.Nets
 import Hdl21Model.Lemmas.InstBundle
 import Hdl21Model.Lemmas.ArrayPass
 import Hdl21Model.Lemmas.BundleConn
+import Hdl21Model.Lemmas.ModulePipe
 namespace Hdl21.Props.C01
 open Hdl21 Hdl21.Pkg
 
@@ -518,5 +519,78 @@ example :
     show_ (reconnect flatName env "p" pt (.anon [("x", .scalar (.sig "a" 1))])) = none := by decide
 
 end BundleConnections
+
+
+/-! ## F1 at module level: the passes composed (ModulePipe.lean) -/
+section Pipeline
+open Hdl21.RoundTrip Hdl21.ExportWF Hdl21.ModulePipe
+
+/-- what the netlisters read on a port of an exported instance, against what the designer wrote there -/
+def ConnKept (ws : List (String × Nat)) (pc : String × SConn) (pt : String × PTarget) : Prop :=
+  pt.1 = pc.1 ∧ ∃ bs, pc.2.denote = .ok bs ∧ readTarget ws pt.2 = bs.map bitNat
+
+def InstKept (ws : List (String × Nat)) (i : HInst) (pi : PInst) : Prop :=
+  pi.name = i.name ∧ pi.ref = i.ref ∧ pi.params = i.params ∧ All2 (ConnKept ws) i.conns pi.conns
+
+/-- **C01 for a whole F1 module, through the composed default pass list and the exporter**: whenever `pipeline` answers, the
+    exported module declares the module's signals, has one instance per instance the designer wrote — same name, same target,
+    same parameters, in order — and every instance the same ports in the same order, each connected to a target in which the
+    netlisters read, bit *i* for bit *i*, exactly the signal bits the designer's expression (any nesting of slices and
+    concatenations, any step and sign) denotes.  Two terminals therefore touch the same signal bit in the package iff they do in
+    the source: the attachment map is the same, and the nets are its fibres. -/
+theorem module_connections_preserved (fuel : Nat) (ctx : PRef → Option (List (String × Nat))) (h : HModule) (p : PModule)
+    (hm : ModOK ctx h) (hp : pipeline fuel ctx h = .ok p) :
+    p.name = h.name ∧ p.signals = sigList h ∧ All2 (InstKept (sigList h)) h.instances p.instances := by
+  obtain ⟨_, _, _, _, hcn, hctx⟩ := hm
+  unfold pipeline at hp
+  cases he : elabModule fuel ctx h with
+  | error x => simp [he] at hp
+  | ok e =>
+    simp only [he] at hp
+    obtain ⟨ho, hc, hs, _, _⟩ := elabModule_inv he
+    obtain ⟨hn, hsig, hport, hrel⟩ := sliceResolver_inv hs
+    unfold RoundTrip.exportModule at hp
+    cases h1 : exportPorts e.ports with
+    | error x => simp [h1] at hp
+    | ok q =>
+      cases h2 : exportInsts e.instances with
+      | error x => simp [h1, h2] at hp
+      | ok ps =>
+        simp only [h1, h2] at hp
+        injection hp with hp
+        subst hp
+        refine ⟨hn, by show _ = sigList h; unfold sigList; rw [hsig, hport], ?_⟩
+        have hx := exportInsts_spec _ _ h2
+        -- compose resolver and exporter, instance by instance, remembering where each instance came from
+        have hrel' : All2 (fun i r => i ∈ h.instances ∧ ResInstRel fuel i r) h.instances e.instances :=
+          forall2_imp_mem hrel (fun a ha b hr => ⟨ha, hr⟩)
+        refine forall2_comp ?_ hrel' hx
+        rintro i r pi ⟨hi, r1, r2, r3, rcs⟩ ⟨x1, x2, x3, xcs⟩
+        refine ⟨x1.trans r1, x2.trans r2, x3.trans r3, ?_⟩
+        obtain ⟨ports, hcr, hpass⟩ := connTypes_inst hc i hi
+        have hall := ((ConnTypes.passes_iff ports i.conns (hctx _ _ hcr) (hcn i hi)).mp hpass)
+        have rcs' : All2 (fun pc pr => pc ∈ i.conns ∧ ResRel fuel pc pr) i.conns r.conns :=
+          forall2_imp_mem rcs (fun a ha b hr => ⟨ha, hr⟩)
+        refine forall2_comp ?_ rcs' xcs
+        rintro pc pr pt ⟨hpc, e1, hres⟩ ⟨e2, hexp⟩
+        refine ⟨e2.trans e1, ?_⟩
+        -- the connection has a width (ConnTypes), hence a denotation
+        obtain ⟨pw, hpw, hpn⟩ := List.mem_map.mp (hall.2 pc hpc)
+        obtain ⟨c, hcm, hw⟩ := hall.1 pw hpw
+        have hceq : c = pc.2 := by
+          have : (pw.1, pc.2) ∈ i.conns := by rw [hpn]; exact hpc
+          exact (ConnTypes.unique_conn i.conns pw.1 c pc.2 (hcn i hi) hcm this).symm
+        obtain ⟨bs, hd, _⟩ := width_denote pc.2 pw.2 (hceq ▸ hw)
+        exact ⟨bs, hd, connection_preserved (sigList h) fuel pc.2 pr.2 pt.2 bs (orphanage_inst ho i hi pc hpc) hres hexp hd⟩
+
+/-- non-vacuity: two resistors on a bus, one on a reversed slice of a concatenation; the readings are the designer's bits -/
+example : (pipeline 40 (fun _ => some [("p", 2), ("n", 1)])
+    ⟨"T", [⟨"s", 2, none⟩, ⟨"t", 2, none⟩], [⟨"a", 1, some "INPUT"⟩],
+     [⟨"x", .ext "d" "n", [], [("p", .slice (.concat [.sig "s" 2, .sig "t" 2]) (.range (some 2) (some 0) (some (-1)))), ("n", .sig "a" 1)]⟩,
+      ⟨"y", .ext "d" "n", [], [("n", .slice (.sig "t" 2) (.int (-1))), ("p", .sig "s" 2)]⟩]⟩).toOption.map
+      (fun p => p.instances.map fun i => i.conns.map fun pc => (pc.1, readTarget p.signals pc.2)) =
+    some [[("p", [("t", 0), ("s", 1)]), ("n", [("a", 0)])], [("n", [("t", 1)]), ("p", [("s", 0), ("s", 1)])]] := by
+  decide +kernel
+end Pipeline
 
 end Hdl21.Props.C01
